@@ -208,6 +208,18 @@ func c04Judge(c c04Case, emit func(prop, desc string)) string {
 				emit("C18", fmt.Sprintf("the response %q does not decode to the error the handler supplied (message \"User 42 not found\", data {id:42})", final[0]))
 			}
 		}
+		if class == "error:system.notFound" && firstReply(c.Script) == "errStdData" {
+			var e struct {
+				Error struct {
+					Code, Message string
+					Data          map[string]int
+				}
+			}
+			json.Unmarshal([]byte(final[0]), &e)
+			if e.Error.Message != "Not found" || e.Error.Data["id"] != 42 {
+				emit("C05", fmt.Sprintf("error value was not returned verbatim (data {id:42} lost): %q", final[0]))
+			}
+		}
 		if class == "error:custom.error" {
 			var e struct {
 				Error struct {
@@ -232,12 +244,14 @@ func firstLineOf(s string) string {
 }
 
 // c04Extra: further actions, enumerated in scripts of length <= 2 that contain at least one of them.
-var c04Extra = []string{"errwrap", "errStd", "panicWrap", "setmeta201"}
+var c04Extra = []string{"errwrap", "errStd", "errStdData", "panicWrap", "setmeta201"}
 
 func c04Scripts(maxLen int, f func([]string) bool) {
 	if maxLen > 0 {
 		all := append(append([]string{}, c04Actions...), c04Extra...)
-		isExtra := func(a string) bool { return a == "errwrap" || a == "errStd" || a == "panicWrap" || a == "setmeta201" }
+		isExtra := func(a string) bool {
+			return a == "errwrap" || a == "errStd" || a == "errStdData" || a == "panicWrap" || a == "setmeta201"
+		}
 		for _, a := range all {
 			if isExtra(a) && !f([]string{a}) {
 				return
@@ -335,7 +349,7 @@ func replayC04(input string) []string {
 func firstReply(script []string) string {
 	for _, a := range script {
 		switch a {
-		case "ok", "resource", "err", "errplain", "notfound", "errwrap", "errStd":
+		case "ok", "resource", "err", "errplain", "notfound", "errwrap", "errStd", "errStdData":
 			return a
 		}
 		if strings.HasPrefix(a, "panic") {
